@@ -7,7 +7,7 @@ import (
 // runners of the population-level properties over epoch histories (epoch.go, phased.go)
 
 func init() {
-	for _, p := range []string{"C02", "C03", "C17"} {
+	for _, p := range []string{"C02", "C03"} {
 		p := p
 		runners[p] = func(r *Run) error { return runEpochProp(r, p) }
 		replayers[p] = replayEpoch
